@@ -75,4 +75,18 @@ def statesOf (fs : FS) : List Op → List FS
 def exportOps (fs : FS) (p : Path) (chunks : List Nat) (crash : Crash) : FS × Bool :=
   (runOps fs (program p chunks crash).1, (program p chunks crash).2)
 
+/-- for the driver: per run of a history (`none` = skipped as already generated) the operation program
+of the export and, for the directory after each of its operations, whether the run's output file is
+still exactly as before the run.  The history itself is stepped with `exportOps`. -/
+def opsTrace : FS → List Run → List (Option (List Op × List Bool))
+  | _, [] => []
+  | fs, r :: rs =>
+    let s := genFile exportOps fs (.out r.path) r.overwrite r.chunks r.crash
+    let info : Option (List Op × List Bool) :=
+      if s.2 = .skipped then none
+      else
+        let ops := (program (.out r.path) r.chunks r.crash).1
+        some (ops, (statesOf fs ops).map fun st => decide (st (.out r.path) = fs (.out r.path)))
+    info :: opsTrace s.1 rs
+
 end GenFile
